@@ -344,6 +344,51 @@ func c14(c *core.Ctx, r *core.Report) {
 	}
 	site := sites[0]
 	fn := site.Parent()
+	// exactly once per App.Close call means exactly once for the owner only if nobody else calls App.Close: the
+	// library never closes on the owner's behalf (unless Close itself is made idempotent by a closed flag)
+	closeFn := core.TopLevel(fn)
+	for i := 0; i < 4 && closeFn.Object() != nil && !closeFn.Object().Exported() && len(c.FuncValueUses(closeFn)) == 0; i++ {
+		// the loop body / the goroutine body moved into a helper: the closing routine is its one caller
+		var up *ssa.Function
+		same := true
+		for _, cl := range c.Callers(closeFn) {
+			t := core.TopLevel(cl)
+			if up != nil && up != t {
+				same = false
+			}
+			up = t
+		}
+		if up == nil || !same || up == closeFn {
+			break
+		}
+		closeFn = up
+	}
+	if callers := c.CallSites(func(com *ssa.CallCommon) bool { return core.IsCallTo(com, closeFn) }); len(callers) > 0 || len(c.FuncValueUses(closeFn)) > 0 {
+		idem := false
+		if len(closeFn.Blocks) > 0 {
+			if iff, ok := closeFn.Blocks[0].Instrs[len(closeFn.Blocks[0].Instrs)-1].(*ssa.If); ok {
+				if ld, ok := core.Norm(iff.Cond).(*ssa.UnOp); ok {
+					if fa, ok := ld.X.(*ssa.FieldAddr); ok {
+						if fr, ok := core.FieldOfAddr(fa); ok {
+							stores, _ := c.FieldAccesses(fr.Owner, fr.Name)
+							for _, st := range stores {
+								if k, isK := st.Store.Val.(*ssa.Const); isK && k.Value != nil && k.Value.String() == "true" && core.TopLevel(st.Fn) == closeFn {
+									idem = true
+								}
+							}
+						}
+					}
+				}
+			}
+		}
+		pos := c.FnPos(closeFn)
+		if len(callers) > 0 {
+			pos = c.Pos(callers[0].Pos())
+		}
+		r.Check(idem, "C14.R9", "who-may-close:"+core.FnName(closeFn), pos, "the container itself calls the closing routine although it does not remember having closed: an owner that closes its App afterwards runs every closer a second time")
+	} else {
+		r.Hold("C14.R9", "who-may-close:"+core.FnName(closeFn), c.FnPos(closeFn), "no in-scope function calls the closing routine: every closer runs once per Close call of the owner")
+	}
 	call, isCall := site.(*ssa.Call)
 	if !isCall {
 		r.Fail("C14.R2", "Close@"+core.FnName(fn), c.Pos(site.Pos()), "Close is invoked by go/defer directly, without a way to wait for it")
